@@ -293,6 +293,14 @@ def c06(R):
                     got = np.asarray(sa._update_values(sa.batched_states, prob.action_space, prob.random_event_space, sa.gamma, jnp.array(cur)))
                     if got.shape != (N,) or not close(got, new): R.fail("c06.sweep_is_block_gauss_seidel", f"sweep {sweep + 1} differs from the block Gauss-Seidel reference", dict(inp, sweep=sweep + 1, permutation=perm), got, new); break
                     cur = new
+                # the same through the public entry point: solve(1) per sweep (the iteration counter advances, the solver keeps its own state between calls)
+                sb = SA(Tab(ns, r, p, v0), gamma=g, epsilon=1e-12, verbose=0, max_batch_size=bs, shuffle_states=shuffle, random_seed=seed); key2 = jr.PRNGKey(seed); cur2 = np.array(v0)
+                for sweep in range(4):
+                    if shuffle: key2, sub2 = jr.split(key2); perm2 = np.asarray(jr.permutation(sub2, jnp.arange(N)))
+                    else: perm2 = np.arange(N)
+                    new2 = gs_reference(ns, r, p, g, cur2, perm2, bsz, nb); got2 = np.asarray(sb.solve(1).values)
+                    if got2.shape != (N,) or not close(got2, new2): R.fail("c06.sweep_is_block_gauss_seidel", f"sweep {sweep + 1} driven by solve(1) differs from the block Gauss-Seidel reference", dict(inp, sweep=sweep + 1, driven_by="solve(1) per sweep", permutation=perm2), got2, new2); break
+                    cur2 = new2
                 if shuffle:      # reproducibility from the seed
                     s1 = SA(prob, gamma=g, epsilon=1e-9, verbose=0, max_batch_size=bs, shuffle_states=True, random_seed=seed).solve(4)
                     s2 = SA(prob, gamma=g, epsilon=1e-9, verbose=0, max_batch_size=bs, shuffle_states=True, random_seed=seed).solve(4)
